@@ -1,5 +1,5 @@
 (* C14 — non-vacuity examples and refutations of the pre-repair behaviours *)
-From Coq Require Import ZArith List Bool.
+From Coq Require Import ZArith List Bool Lia.
 From Verif Require Import C14.Model C14.Proofs.
 Import ListNotations.
 Open Scope Z_scope.
@@ -19,8 +19,8 @@ Example ex_st0_owned :
   get_ctx st0 1 = None /\ active st0 = [5].
 Proof. vm_compute. auto. Qed.
 
-Definition sc_plain : script := mkScript [] [WProbe] false VTrue.
-Definition sc_work_raises : script := mkScript [] [WProbe] true VNone.
+Definition sc_plain : script := mkScript [] [] [WProbe] false VTrue.
+Definition sc_work_raises : script := mkScript [] [] [WProbe] true VNone.
 
 (* success path with a repeated request and a preemption of op5's r2 *)
 Example ex_success :
@@ -33,7 +33,7 @@ Proof. vm_compute. auto 10. Qed.
 (* blocked on the third request: the first two are given back, r1 untouched *)
 Example ex_blocked :
   let '(s', res) := exec_op current no_timeouts st0 1 3 [3; 3; 1; 2] sc_plain in
-  r_success res = false /\ r_phase res = G0 /\ obtained_by st0 1 3 [3; 3; 1; 2] sc_plain = [3; 3] /\
+  r_success res = false /\ r_phase res = G0 /\ obtained_by no_timeouts st0 1 3 [3; 3; 1; 2] sc_plain = [3; 3] /\
   owner s' 3 = None /\ lock_core s' 1 = lock_core st0 1 /\ lock_core s' 2 = lock_core st0 2 /\
   r_log res = [EvCp 0 true].
 Proof. vm_compute. auto 10. Qed.
@@ -46,10 +46,56 @@ Proof. vm_compute. intuition. Qed.
 
 (* the work function kills its own operation, then another operation takes r3 *)
 Example ex_self_kill :
-  let sc := mkScript [] [WDo (FKill 1); WDo (FAcquire 5 3); WProbe] false VNone in
+  let sc := mkScript [] [] [WDo (FKill 1); WDo (FAcquire 5 3); WProbe] false VNone in
   let '(s', res) := exec_op current no_timeouts st0 1 3 [3] sc in
   r_success res = true /\ owner s' 3 = Some 5 /\ active s' = [5].
 Proof. vm_compute. auto. Qed.
+
+(* the operation is killed while its G0 checkpoint callback runs - before the
+   acquisition loop: it still takes r3 (twice) and preempts r2 while delisted, the
+   liveness test stops it before work, and the abort gives everything back *)
+Definition sc_kill_g0 : script := mkScript [] [[CKill 1]] [WProbe] false VTrue.
+Example ex_killed_in_g0_callback :
+  let '(s', res) := exec_op current no_timeouts st0 1 3 [3; 2; 3] sc_kill_g0 in
+  r_success res = false /\ r_phase res = G0 /\
+  r_log res = [EvDid [1]; EvCp 0 true; EvCp 1 true] /\
+  owner s' 3 = None /\ owner s' 2 = None /\ owner s' 1 = Some 5 /\ active s' = [5].
+Proof. vm_compute. auto 10. Qed.
+
+(* ... the state in which that execution ends is NOT well-formed (a delisted
+   operation owns locks) but it is well-formed up to the operation: the
+   hypothesis-free statement [c14_exec_end_changes_only_own_locks] is about such states *)
+Example ex_wfbut_not_wf :
+  let s0 := fst (fstep current no_timeouts (start_op st0 1 3 false) (FKill 1)) in
+  let s2 := fst (acquire_all current s0 1 0 [3; 2; 3]) in
+  owner s2 3 = Some 1 /\ owner s2 2 = Some 1 /\ ~ In 1 (active s2) /\ WFbut 1 s2.
+Proof.
+  cbv zeta. split; [reflexivity|]. split; [reflexivity|]. split; [vm_compute; intuition lia|].
+  eapply acquire_all_wfbut; [|apply surjective_pairing].
+  apply fstep_wfbut. apply wf_wfbut; [|apply start_op_ctx].
+  apply start_op_wf_ended; [apply ex_st0_wf | vm_compute; intuition lia].
+Qed.
+
+(* killed while the G1 checkpoint callback runs - after the acquisition loop:
+   everything is released by the kill, work_fn is not invoked *)
+Example ex_killed_in_g1_callback :
+  let sc := mkScript [] [[]; [CProbe; CKill 1; CProbe]] [WProbe] false VTrue in
+  let '(s', res) := exec_op current no_timeouts st0 1 3 [3; 3] sc in
+  r_success res = false /\ filter is_work (r_log res) = [] /\
+  r_log res = [EvCp 0 true; EvProbe [(5, 1); (5, 2); (1, 2)]; EvDid [1]; EvProbe [(5, 1); (5, 2); (-1, 0)]; EvCp 1 true] /\
+  owner s' 3 = None /\ active s' = [5].
+Proof. vm_compute. auto 10. Qed.
+
+(* a retry under the id of an operation that has ended: op1 is blocked on r1
+   (it stays in r1's waiting list), op5 ends, op1 is executed again *)
+Example ex_retry_same_id :
+  let '(s1, res1) := exec_op current no_timeouts st0 1 3 [1] sc_plain in
+  let s2 := fst (fstep current no_timeouts s1 (FKill 5)) in
+  let '(s3, res3) := exec_op current no_timeouts s2 1 3 [1; 1] sc_plain in
+  r_success res1 = false /\ get_ctx s1 1 <> None /\ ~ In 1 (active s2) /\
+  match get_lock s2 1 with Some l => l_wait l = [(1, 3)] | None => False end /\
+  r_success res3 = true /\ owner s3 1 = None /\ active s3 = [].
+Proof. vm_compute. intuition congruence. Qed.
 
 (* watchdog: a two-party deadlock, the lower-priority member is terminated *)
 Definition hist_dl : list op :=
@@ -75,7 +121,7 @@ Lemma c14_legacy_reentrant_leak_refuted :
     r_success (snd (exec_op (mkF true false false) w s o p reqs sc)) = true /\
     exists r, owner (fst (exec_op (mkF true false false) w s o p reqs sc)) r = Some o.
 Proof.
-  exists no_timeouts, (init_state [(1, false)]), 1, 0, [1; 1], (mkScript [] [] false VNone).
+  exists no_timeouts, (init_state [(1, false)]), 1, 0, [1; 1], (mkScript [] [] [] false VNone).
   split; [apply wf_init|]. split; [reflexivity|]. split; [reflexivity|].
   exists 1. reflexivity.
 Qed.
@@ -90,4 +136,22 @@ Proof.
   exists no_timeouts,
     [OFlat (FStart 1 0 false); OFlat (FAcquire 1 1); OFlat (FAcquire 1 1); OFlat (FRelease 1 1)], 1, 1.
   vm_compute. split; [reflexivity | tauto].
+Qed.
+
+(* before 531c938: execute_operation went from the G1 checkpoint straight to
+   work_fn.  An operation killed while its G1 checkpoint callback ran had lost
+   everything, yet its work function was invoked - holding nothing, not listed
+   as active - and success was reported. *)
+Lemma c14_legacy_work_after_kill_refuted :
+  exists w s o p reqs sc sw,
+    WF s /\ ~ In o (active s) /\
+    In (EvWork sw) (r_log (snd (exec_op_gen false current w s o p reqs sc))) /\
+    ~ In o (active sw) /\ (exists r, In r reqs /\ owner sw r <> Some o) /\
+    r_success (snd (exec_op_gen false current w s o p reqs sc)) = true.
+Proof.
+  exists no_timeouts, (init_state [(1, false)]), 1, 0, [1], (mkScript [] [[]; [CKill 1]] [] false VNone).
+  eexists. split; [apply wf_init|]. split; [simpl; tauto|].
+  split; [vm_compute; right; right; right; left; reflexivity|].
+  split; [vm_compute; tauto|]. split; [exists 1; split; [simpl; auto | vm_compute; discriminate]|].
+  reflexivity.
 Qed.
